@@ -27,3 +27,15 @@ let () =
       else if int_of_string n > 0 then Viol (Printf.sprintf "the race detector reported %s data race(s) between the FIRST sessions of a fresh process (lazily initialised shared state)" n)
       else Pass (race = "true" || race = "1")
     | _ -> Diff "malformed line")
+
+let () =
+  (* CHC: a control frame whose payload did not arrive completely: nothing is written for it, an error is reported *)
+  register "CHC" (fun i o -> match i, o with
+    | [_side; op; _payload; _key; entry; _k; _tail], [log; res] ->
+      let wrote = List.exists (fun x -> x <> []) (bytes_list_of_tok log) in
+      if wrote then Viol (Printf.sprintf "a reply was written for a control frame (opcode %s, entry %s) whose payload did not arrive completely" op entry)
+      else if res = "nil" || (String.length res >= 6 && String.sub res 0 6 = "closed") then
+        Viol "a control frame whose payload did not arrive completely was handled as if it were complete"
+      else if res = "panic" then Viol "control handler panicked on a cut payload"
+      else Pass true
+    | _ -> Diff "malformed line")
